@@ -8,6 +8,7 @@ CONSTANTS
   MaxSize = 3
   RangeCheck = TRUE
   CorruptSizes <- MC_CorruptSizes
+  WithMarshal = TRUE
   CorruptOffsets <- MC_CorruptOffsets
 INVARIANTS TypeOK ShapeOK DefinedIffShape NoPanic
 CONSTRAINT OneCorruption
